@@ -18,9 +18,11 @@ import (
 	"os"
 	"os/exec"
 	"path/filepath"
+	"runtime"
 	"sort"
 	"strconv"
 	"strings"
+	"sync"
 	"syscall"
 	"testing"
 	"time"
@@ -44,7 +46,7 @@ func crashID(i int64) vaa.VAAID {
 
 func crashVAA(i, variant int64) (*vaa.VAA, []byte) {
 	id := crashID(i)
-	plen := []int{12, 300, 1, 999, 1700, 64}[int(variant)%6]
+	plen := []int{12, 300, 1, 999, 1700, 64, 0, 1001}[int(variant)%8] // 0: a message with an empty payload is legal
 	payload := make([]byte, plen)
 	for k := range payload {
 		payload[k] = byte(int(variant)*13 + k*5 + int(i))
@@ -268,6 +270,67 @@ func (w *crashWorld) run(p *simkit.Program) {
 				w.violate("acknowledged-write-not-readable", "id %d: err=%v", id, err)
 			}
 			w.log.Add("get %d", id)
+		case "closedstore":
+			// shutdown order: the store is closed while a writer still has a VAA in hand. Whatever the
+			// call answers, an answer "stored" is an acknowledgement like any other.
+			id := st.A % crashUniverse
+			v, exp := crashVAA(st.A, st.B)
+			if err := w.d.Close(); err != nil {
+				w.violate("close-failed", "Close: %v", err)
+				return
+			}
+			err := w.d.StoreSignedVAA(v)
+			w.stats.Fault("store-after-close")
+			if err == nil {
+				w.acked[id] = exp
+			}
+			w.dropSnapshots()
+			d, oerr := Open(w.live)
+			if oerr != nil {
+				w.violate("store-does-not-reopen-after-kill", "reopen after a clean close: %v", oerr)
+				return
+			}
+			w.d = d
+			w.verifyLive("after store-on-closed-store (answered " + fmt.Sprint(err) + ") and reopen")
+			w.log.Add("closedstore %d acknowledged=%v", id, err == nil)
+		case "storm":
+			// lookups from other goroutines (public RPC, processor) race with the writer; real
+			// parallelism decides the interleaving, the oracle does not depend on it: whatever was
+			// acknowledged is readable afterwards, in this process and after a reopen
+			n := 20 + int(st.A%40)
+			prevProcs := runtime.GOMAXPROCS(4)
+			stop := make(chan struct{})
+			var wg sync.WaitGroup
+			for g := int64(0); g < crashUniverse; g++ {
+				wg.Add(1)
+				go func(g int64) {
+					defer wg.Done()
+					for {
+						select {
+						case <-stop:
+							return
+						default:
+							_, _ = w.d.GetSignedVAABytes(crashID(g))
+						}
+					}
+				}(g)
+			}
+			for k := 0; k < n; k++ {
+				id := (st.B + int64(k)*7) % crashUniverse
+				v, exp := crashVAA(id, st.C+int64(k))
+				if err := w.d.StoreSignedVAA(v); err != nil {
+					w.violate("store-failed", "StoreSignedVAA during concurrent lookups: %v", err)
+					break
+				}
+				w.acked[id] = exp
+			}
+			close(stop)
+			wg.Wait()
+			runtime.GOMAXPROCS(prevProcs)
+			w.stats.Fault("concurrent-lookups")
+			w.dropSnapshots()
+			w.verifyLive("after stores racing with lookups")
+			w.log.Add("storm %d stores", n)
 		case "realkill":
 			w.realKill(st)
 			if w.res.HarnessErr != "" {
@@ -656,6 +719,31 @@ func (w *crashWorld) realKill(st simkit.Step) {
 	w.log.Add("realkill: %d stores, stop-mode=%v plan=%s acked=%d killAfter=%d", n, stopMode, string(pj), acked, killAfter)
 }
 
+func (w *crashWorld) dropSnapshots() {
+	if w.prev != "" {
+		os.RemoveAll(w.prev)
+	}
+	if w.cur != "" {
+		os.RemoveAll(w.cur)
+	}
+	w.prev, w.cur = "", ""
+}
+
+// verifyLive compares the open store with the model of acknowledged writes.
+func (w *crashWorld) verifyLive(what string) {
+	for i := int64(0); i < crashUniverse; i++ {
+		b, err := w.d.GetSignedVAABytes(crashID(i))
+		switch {
+		case w.acked[i] == nil && err != ErrVAANotFound:
+			w.violate("phantom-entry", "%s: id %d never acknowledged, lookup err=%v (%d bytes)", what, i, err, len(b))
+		case w.acked[i] != nil && err != nil:
+			w.violate("acknowledged-write-lost", "%s: id %d was acknowledged but the lookup says %v", what, i, err)
+		case w.acked[i] != nil && !bytes.Equal(b, w.acked[i]):
+			w.violate("acknowledged-write-altered", "%s: id %d returns other bytes than the acknowledged VAA", what, i)
+		}
+	}
+}
+
 type crashHarness struct{}
 
 func (crashHarness) Name() string { return "crashsim" }
@@ -674,6 +762,12 @@ func (crashHarness) Gen(seed uint64, prop, tier string) *simkit.Program {
 			if r.P(0.3) {
 				add("get", int64(r.Intn(crashUniverse)), 0, 0, 0)
 			}
+		}
+		if r.P(0.12) {
+			add("closedstore", int64(r.Intn(crashUniverse)), int64(r.Intn(24)), 0, 0)
+		}
+		if r.P(0.12) {
+			add("storm", int64(r.Intn(40)), int64(r.Intn(crashUniverse)), int64(r.Intn(24)), 0)
 		}
 		if r.P(0.35) {
 			add("realkill", int64(r.Intn(1<<30)), int64(r.Intn(8)), int64(r.Intn(4)), 0)
